@@ -1751,6 +1751,14 @@ class Interp:
                     # iterator is the direct argument of a call that consumes it completely at once.
                     before = None if getattr(node, "_pyvc_consumer", None) == "full" else st3.fork()
                     for st4, r in self.call(f, args, kwargs, st3, node):
+                        if before is not None and isinstance(r, Exc) and self._unchanged(before, st4):
+                            # computing the items raises and changes nothing: CPython creates the iterator without running
+                            # anything and raises when it is consumed (`items = self.iterChildren(..); return list(items)`):
+                            # an iterator with a pending exception, delivered by the complete consumer that takes it (call)
+                            e = IterE([])
+                            e.pending = (r.exc, before)
+                            yield st4, st4.alloc(e)
+                            continue
                         if before is not None and (isinstance(r, Exc) or not self._unchanged(before, st4)):
                             raise Unsupported("a lazy iterator (map / filter / zip / generator function ...) whose items raise or change "
                                               "existing state when computed is evaluated eagerly only as the direct argument of "
@@ -1795,6 +1803,16 @@ class Interp:
         return "self"
 
     def call(self, f, args, kwargs, st, node=None):
+        if isinstance(f, (Builtin, BuiltinClass)):
+            for a in list(args) + list(kwargs.values()):
+                if isinstance(a, Ref) and a.id in st.store and st.store[a.id].__class__ is IterE and st.store[a.id].pending is not None:
+                    e = st.store[a.id]
+                    if self._full_consumer(f) and args and a is args[0] and not e.consumed and self._unchanged(e.pending[1], st):
+                        e.consumed = True
+                        yield st, Exc(e.pending[0])  # raised where CPython raises it: in the consumer
+                        return
+                    raise Unsupported("an iterator whose items raise when computed is used by something else than a complete consumer "
+                                      "(list, tuple, sum, sorted ...) in the state it was created in")
         if isinstance(f, BoundMethod):
             yield from self.call(f.func, [f.self_val] + list(args), kwargs, st, node)
         elif isinstance(f, FuncVal):
